@@ -1,6 +1,6 @@
 """C04 — decoding arbitrary bytes is memory-safe, terminates, and reports consistently."""
 import collections, re
-from .. import build, core, genmod, bundle, gfind, mutate
+from .. import bervar, build, core, genmod, bundle, gfind, mutate
 from . import c01, l1per
 
 DEC = {"der": "ber", "uper": "uper", "oer": "oer", "xer": "xer", "cxer": "xer"}
@@ -88,6 +88,21 @@ def run(ctx):
             for d in (mutate.all_bitflips(data, 6 if ctx.quick else 64)): add(n, syn, d, "flip")
             for d in mutate.surgery(data, ctx.rng, 8 if ctx.quick else 60): add(n, syn, d, "surgery")
             for d in mutate.byte_sweep(data, 12 if ctx.quick else 64): add(n, syn, d, "sweep")
+            if syn == "der" and data:
+                # indefinite-length forms with damaged end-of-contents octets (00 00 -> 00 ff / ff 00 / 00 / 00 01 …): the
+                # end-of-contents scanning loops of the constructed decoders (the CHOICE_decode_ber loop of finding F141 needed
+                # exactly `00 xx` after an indefinite tagged CHOICE) are not reached by mutating definite-length DER
+                try:
+                    for vname, vb in bervar.variants(data, ctx.rng, 1, strings=False)[:2]:
+                        if vname != "all-indefinite" or vb == data: continue
+                        add(n, syn, vb, "indef")
+                        eocs = [i for i in range(len(vb) - 1) if vb[i] == 0 and vb[i + 1] == 0]
+                        for i in (eocs if len(eocs) <= 6 else ctx.rng.sample(eocs, 6)):
+                            for rep in (b"\x00\xff", b"\xff\x00", b"\x00\x01", b"\x00", b""):
+                                add(n, syn, vb[:i] + rep + vb[i + 2:], "indef-eoc")
+                        for d in mutate.truncations(vb, cap=8 if ctx.quick else 64): add(n, syn, d, "indef-trunc")
+                except Exception:
+                    pass
         # splices of two encodings and random bytes, against every type
         # admissible (type, syntax) pairs (e.g. no UPER/OER decoding of types containing SET: F32)
         pairs = []
